@@ -1,8 +1,83 @@
 import NetaddrVerif.Model.Proto
-/-! Driver ops of property C20 (stub: filled in by the property's model). -/
+import NetaddrVerif.Model.Splitter
+/-! Driver ops of property C20 (Model/Splitter.lean).  A history is one line:
+    `splitter N:ver:val:plen [op,op,…]` with
+      `e:<prefix>:<count|->:<hint>`   extract_subnet(prefix, count); hint = `-` or `ver.val.plen`
+                                       of the free block the implementation split
+      `r:ver.val.plen`                 remove_subnet
+    Output: one item per step joined by `;`: `<returned blocks | !err>|<available, fully sorted
+    by (prefix desc, value)>|<available_subnets() was in descending prefix order>`. -/
 namespace NV.Driver.C20
-open NV NV.Proto
+open NV NV.Proto NV.Splitter
 
-def handle (_op : String) (_args : List String) : Option String := none
+def parseDotNet (s : String) : Option Net :=
+  match s.splitOn "." with
+  | [a, b, c] => do pure ⟨← a.toNat?, ← b.toNat?, ← c.toNat?⟩
+  | _ => none
+
+def parseOp (tok : String) : Option Op :=
+  match tok.splitOn ":" with
+  | ["e", p, c, h] => do
+    let p ← parseInt p
+    let c ← if c = "-" then some none else (parseInt c).map some
+    let h ← if h = "-" then some none else (parseDotNet h).map some
+    pure (.extract p c h)
+  | ["r", n] => (parseDotNet n).map .remove
+  | _ => none
+
+def showNets (l : List Net) : String := showList (l.map showNet)
+
+def fullSort (l : List Net) : List Net :=
+  l.mergeSort (fun a b => a.plen > b.plen || (a.plen == b.plen && a.val ≤ b.val))
+
+def descending : List Net → Bool
+  | a :: b :: t => a.plen ≥ b.plen && descending (b :: t)
+  | _ => true
+
+def showStep (r : Obs × List Net) : String :=
+  let obs := match r.1 with
+    | .ok l => showNets l
+    | .error e => showErr e
+  obs ++ "|" ++ showNets (fullSort r.2) ++ "|" ++ showBool (descending (availableSubnets r.2))
+
+/-- driver-only guard (not part of the model): a call that would make the model enumerate more
+    than 2^16 blocks is answered `?toolarge` and ends the history.  The harness never generates
+    such calls for the real code; a changed implementation can lead the generator there. -/
+def tooLarge (s : List Net) : Op → Bool
+  | .extract pfx count hint =>
+    (availableSubnets (reorder s hint)).any (fun c =>
+      match Subnet.subnetCount c pfx count with
+      | .ok (some k) => k > 65536
+      | _ => false)
+  | _ => false
+
+def runGuarded (s : List Net) : List Op → List String
+  | [] => []
+  | op :: ops =>
+    if tooLarge s op then ["?toolarge"]
+    else
+      let r := step s op
+      showStep (r.2, r.1) :: runGuarded r.1 ops
+
+/-- `run` and the guarded loop agree whenever the guard does not fire -/
+theorem runGuarded_eq (s : List Net) (ops : List Op) :
+    runGuarded s ops = (run s ops).map showStep ∨ "?toolarge" ∈ runGuarded s ops := by
+  induction ops generalizing s with
+  | nil => left; rfl
+  | cons op ops ih =>
+    unfold runGuarded
+    split
+    · right; simp
+    · rcases ih (step s op).1 with h | h
+      · left; simp [run, h]
+      · right; simp [h]
+
+def handle (op : String) (args : List String) : Option String :=
+  match op, args with
+  | "splitter", [base, ops] => do
+    let base ← parseNet base
+    let ops ← (← parseList ops).mapM parseOp
+    pure (";".intercalate (runGuarded (init base) ops))
+  | _, _ => none
 
 end NV.Driver.C20
